@@ -245,6 +245,30 @@ def mutate(r, kind, doc, force=None, prefer=None, at=None):
             options = [("retype-class", v) for v in (7, "x", {"zz": 1}, None, True)]
         else:
             options = [("retype-class", v) for v in (7, "x", [1], None, True)]
+            # ... and a well-formed object of ANOTHER model taken from elsewhere in the same document (a type where a
+            # type argument belongs, a value where an operation belongs): it has been seen and accepted in its own
+            # place, here it is as wrong as any other object
+            mine = label(old).split("=")[0]
+            donors = []
+
+            def walk4(x):
+                if isinstance(x, dict):
+                    lb = label(x)
+                    if lb and lb.split("=")[0] != mine and x is not old:
+                        donors.append(x)
+                    for v2 in x.values():
+                        walk4(v2)
+                elif isinstance(x, list):
+                    for v2 in x:
+                        walk4(v2)
+
+            walk4(d)
+            if donors:
+                by = {}
+                for x in donors:
+                    by.setdefault(label(x).split("=")[0], []).append(x)
+                cls_ = r.choice(sorted(by))
+                options += [("retype-transplant", copy.deepcopy(r.choice(by[cls_]))) for _ in range(2)]
         turn = (prefer.get((kind, gp), 1) - 1 + prefer.get("offset", 0)) if prefer is not None else r.randrange(len(options))
         mop2, new = options[turn % len(options)]
         tgt[k2] = new
